@@ -241,7 +241,7 @@ func decodeCheck[T intT](c *fw.Ctx, name string, codec avro.IntCodec[T], b []byt
 	}
 	switch {
 	case class != ref.VOK:
-		if err == nil {
+		if err == nil || rbuf.Len() < 0 {
 			c.Violation(fmt.Sprintf("missing-error|%s|varint-class%d", name, class), fmt.Sprintf("malformed varint %x (class %d) decoded into %s as %d without error", b, class, name, guard[1]), fmt.Sprintf("%x", b))
 		}
 	case !fits[T](v):
@@ -388,7 +388,19 @@ func boolAll(c *fw.Ctx) {
 	}
 }
 
+var spare = make([]byte, 64)
+
 func decodeOne(c *fw.Ctx, b []byte) {
+	decodeOneExact(c, b)
+	// the same candidate as a prefix of a larger buffer: bytes beyond len() are not input
+	for i := range spare {
+		spare[i] = 0x05
+	}
+	copy(spare, b)
+	decodeOneExact(c, spare[:len(b)])
+}
+
+func decodeOneExact(c *fw.Ctx, b []byte) {
 	c.Eval(1)
 	c.NontrivialN(1)
 	if len(b) == 10 && b[0] == 0xff && b[9] == 0x7f && b[8] == 0xff {
